@@ -292,12 +292,17 @@ add("C12", "TestC12", race=True, note_current=True,
           "model order, ID/Type/Data/FormatSpecific of live nodes unchanged, released pointers unreachable, acquired nodes blank, not "
           "live, with a fresh ID; pool probes acquire and release 2-8 nodes. (reader, ~13%) the format reader of a gen.Shape input driven "
           "by hand: audit at delivery, after Release, after the next Read, one more Read after EOF. (conc, ~2.5%) 2/8/32 goroutines "
-          "acquiring, linking, auditing and releasing nodes: no node owned twice, IDs pairwise distinct; built with -race. Non-trivial: "
+          "acquiring, linking, auditing and releasing nodes: no node owned twice, IDs pairwise distinct; built with -race. A 'churn' operation "
+          "(300 bare acquire/release cycles of one node in 4% of the ops histories; 66 000-270 000 cycles in every history of the extra "
+          "test TestC12Churn, which runs on the plain build because sync.Pool drops Puts at random under -race) checks blankness and "
+          "that no ID of the history is ever handed out again. Non-trivial: "
           "(ops) a non-root removal followed by an acquisition that returns a pointer released earlier, (reader) >= 2 records and an "
           "observed pool re-use, (conc) always; distinct by SHA-256 of the case."),
-    quick={"checks": 2500, "shards": 4, "timeout": 900, "gomaxprocs": 8},
-    thorough={"checks": 40000, "shards": 16, "timeout": 3300, "gomaxprocs": 8},
-    floors={"ops:reuse-after-nonroot-removal": 0.4, "kind=reader": 0.05, "kind=conc": 0.01},
+    quick={"checks": 2500, "shards": 4, "timeout": 900, "gomaxprocs": 8,
+           "extra": [{"test": "TestC12Churn", "checks": 60, "shards": 2, "plain": True}]},
+    thorough={"checks": 40000, "shards": 16, "timeout": 3300, "gomaxprocs": 8,
+              "extra": [{"test": "TestC12Churn", "checks": 600, "shards": 4, "plain": True}]},
+    floors={"ops:reuse-after-nonroot-removal": 0.4, "kind=reader": 0.05, "kind=conc": 0.01, "churn>=65536": 0.005},
     assumptions=["ID uniqueness is checked within one case (the check is a pure function of the case); across cases the atomic counter is "
                  "exercised by the concurrent arm under the race detector",
                  "the post-EOF Read goes slightly beyond what Transform does (it never re-reads after a terminal result)"])
